@@ -31,8 +31,8 @@ _cache = {}
 def grids():
     return {
         "A": np.arange(0, 15),  # whole days as an INTEGER-typed array (np.arange): B and S have the same length and are float, so both dtype orders occur
-        "B": 0.05 + np.linspace(0.0, 1.2, 15),
-        "C": np.linspace(0.0, np.sqrt(6.0), 22) ** 2,
+        "B": np.concatenate([np.arange(5.0), 4.0 + np.linspace(0.3, 9.0, 10)]),  # float, A's length, and A's first five instants: a re-run that starts like the previous one and then departs
+        "C": np.concatenate([np.arange(4.0), 3.0 + np.linspace(0.2, np.sqrt(6.0), 18) ** 2]),  # another length, again sharing the leading instants
         "S": np.linspace(0.0, np.sqrt(2.0), 15) ** 2,  # simulated together with a frac-face schedule
     }
 
